@@ -250,6 +250,7 @@ def streams(pid, tier, seed):
     elif pid == "C14":
         add("hexm", gen.hex_malformed())
         add("hexb", gen.hex_all_blocks(stride(8, 1), seed))
+        add("hexs", gen.hex_stateful(seed))
         add("mixed", mixed_stream(seed, 10000 if q else 200000, badstr=True)[0])
     elif pid == "C15":
         add("mixed", mixed_stream(seed, 25000 if q else 400000)[0])
